@@ -58,6 +58,7 @@ const (
 var kindNames = [...]string{"start", "lock", "unlock", "rlock", "runlock", "atomic", "wgadd", "wgwait", "once",
 	"poolget", "poolput", "map", "sleep", "yield", "netread", "netwrite", "netclose", "accept", "dial", "waitchan", "user"}
 
+//go:norace
 func (k Kind) String() string {
 	if int(k) < len(kindNames) {
 		return kindNames[k]
@@ -101,6 +102,7 @@ type Task struct {
 	daemon     bool
 }
 
+//go:norace
 func (t *Task) String() string {
 	if t.Name != "" {
 		return t.ID + "(" + t.Name + ")"
@@ -162,7 +164,7 @@ type Sched struct {
 	cfg    Config
 	mu     sync.Mutex // real mutex: protects tasks/byGoid against free-running tasks
 	tasks  []*Task
-	byGoid map[uint64]*Task
+	byGoid goidTab
 	cur    *Task
 	last   *Task
 	rng    *Rand // schedule choices
@@ -201,19 +203,27 @@ type Sched struct {
 var active atomic.Pointer[Sched]
 
 // Active returns the running scheduler or nil.
+//
+//go:norace
 func Active() *Sched { return active.Load() }
 
 // Now returns the fake time since the run started.
+//
+//go:norace
 func (s *Sched) Now() time.Duration { return time.Since(s.start) }
 
 // Fail records a violation note (class string first).
+//
+//go:norace
 func (s *Sched) Fail(class string, format string, a ...any) {
-	s.fmu.Lock()
+	qlock(&s.fmu)
 	s.Failures = append(s.Failures, class+": "+fmt.Sprintf(format, a...))
-	s.fmu.Unlock()
+	qunlock(&s.fmu)
 }
 
 // Fail records a violation on the active run.
+//
+//go:norace
 func Fail(class string, format string, a ...any) {
 	if s := Active(); s != nil {
 		s.Fail(class, format, a...)
@@ -221,12 +231,15 @@ func Fail(class string, format string, a ...any) {
 }
 
 // Failed reports whether any failure was recorded.
+//
+//go:norace
 func (s *Sched) Failed() bool {
-	s.fmu.Lock()
-	defer s.fmu.Unlock()
+	qlock(&s.fmu)
+	defer qunlock(&s.fmu)
 	return len(s.Failures) > 0
 }
 
+//go:norace
 func (s *Sched) logf(format string, a ...any) {
 	if s.cfg.TraceEvents {
 		s.Log = append(s.Log, fmt.Sprintf("%d ", s.Stats.Steps)+fmt.Sprintf(format, a...))
@@ -234,32 +247,41 @@ func (s *Sched) logf(format string, a ...any) {
 }
 
 // Logf appends to the event log of the active run (no-op unless tracing).
+//
+//go:norace
 func Logf(format string, a ...any) {
 	if s := Active(); s != nil && s.cfg.TraceEvents {
-		s.mu.Lock()
+		qlock(&s.mu)
 		s.logf(format, a...)
-		s.mu.Unlock()
+		qunlock(&s.mu)
 	}
 }
 
+//go:norace
 func (s *Sched) mixSig(v uint64) {
 	s.sig = (s.sig ^ v) * 0x100000001b3
 	s.sig ^= s.sig >> 29
 }
 
 // MixSig folds harness-level observations into the determinism signature.
+//
+//go:norace
 func MixSig(v uint64) {
 	if s := Active(); s != nil {
-		s.mu.Lock()
+		qlock(&s.mu)
 		s.mixSig(v)
-		s.mu.Unlock()
+		qunlock(&s.mu)
 	}
 }
 
 // Signature is a hash of the executed schedule.
+//
+//go:norace
 func (s *Sched) Signature() uint64 { return s.sig }
 
 // SwitchSignatures returns the set of context-switch signatures seen.
+//
+//go:norace
 func (s *Sched) SwitchSignature() uint64 {
 	var h uint64 = 1469598103934665603
 	keys := make([]uint64, 0, len(s.swSig))
@@ -273,9 +295,10 @@ func (s *Sched) SwitchSignature() uint64 {
 	return h
 }
 
+//go:norace
 func (s *Sched) newTask(parent *Task, name string) *Task {
 	t := &Task{Name: name, wake: make(chan struct{}, 1)}
-	s.mu.Lock()
+	qlock(&s.mu)
 	if parent == nil {
 		t.ID = strconv.Itoa(s.rootID)
 		s.rootID++
@@ -287,28 +310,31 @@ func (s *Sched) newTask(parent *Task, name string) *Task {
 	t.prio = int(s.Aux.Uint64() >> 1)
 	s.tasks = append(s.tasks, t)
 	s.Stats.Tasks++
-	s.mu.Unlock()
+	qunlock(&s.mu)
 	return t
 }
 
+//go:norace
 func (s *Sched) lookup() *Task {
 	g := goid()
 	if g == s.schedGoid {
 		panic("simrt: sim point reached from scheduler context (a predicate, timed event or OnStep hook called instrumented code)")
 	}
-	s.mu.Lock()
-	t := s.byGoid[g]
+	qlock(&s.mu)
+	t := s.byGoid.get(g)
 	if t == nil {
 		// A goroutine the scheduler did not spawn (e.g. a process-level helper started at package
 		// initialisation, outside any bubble).  It is not part of the simulation: its operations
 		// fall through to the real primitives.  Counted, so a run can be flagged if it happens.
 		s.Stats.Adopted++
 	}
-	s.mu.Unlock()
+	qunlock(&s.mu)
 	return t
 }
 
 // Current returns the calling task (nil outside a run).
+//
+//go:norace
 func Current() *Task {
 	s := Active()
 	if s == nil {
@@ -322,9 +348,13 @@ var alwaysPred Pred = nil
 // Point is a sim point: the caller parks until the scheduler picks it and pred
 // (nil = always) holds.  Outside a run it returns false at once and the caller
 // must use the real primitive.
+//
+//go:norace
 func Point(kind Kind, obj any, pred Pred) bool { return PointT(kind, obj, pred) != nil }
 
 // PointT is Point returning the calling task (nil outside a run).
+//
+//go:norace
 func PointT(kind Kind, obj any, pred Pred) *Task {
 	s := active.Load()
 	if s == nil {
@@ -364,9 +394,13 @@ func PointT(kind Kind, obj any, pred Pred) *Task {
 }
 
 // Yield is an explicit sim point.
+//
+//go:norace
 func Yield() { Point(KYield, nil, nil) }
 
 // YieldN yields n times.
+//
+//go:norace
 func YieldN(n int) {
 	for i := 0; i < n; i++ {
 		Yield()
@@ -374,6 +408,8 @@ func YieldN(n int) {
 }
 
 // Sleep is a sim-aware time.Sleep.
+//
+//go:norace
 func Sleep(d time.Duration) {
 	s := active.Load()
 	if s == nil {
@@ -395,6 +431,8 @@ func Sleep(d time.Duration) {
 
 // WaitClosed parks until ch is closed (or has a value; the value is not consumed
 // for a closed channel - use only with close-style channels).
+//
+//go:norace
 func WaitClosed(ch <-chan struct{}) {
 	s := active.Load()
 	if s == nil {
@@ -409,9 +447,12 @@ func WaitClosed(ch <-chan struct{}) {
 			return false, time.Time{}
 		}
 	})
+	hAcquire()
 }
 
 // WaitClosedUntil parks until ch is closed or d of fake time passed; reports whether it was closed.
+//
+//go:norace
 func WaitClosedUntil(ch <-chan struct{}, d time.Duration) bool {
 	s := active.Load()
 	if s == nil {
@@ -445,6 +486,8 @@ func WaitClosedUntil(ch <-chan struct{}, d time.Duration) bool {
 // WaitCond parks until cond() holds; cond is evaluated by the scheduler while
 // every task is stopped, so it may read shared harness state without locks but
 // must not hit sim points.
+//
+//go:norace
 func WaitCond(cond func() bool) {
 	if active.Load() == nil {
 		for !cond() {
@@ -453,12 +496,15 @@ func WaitCond(cond func() bool) {
 		return
 	}
 	Point(KUser, nil, func(time.Time) (bool, time.Time) { return cond(), time.Time{} })
+	hAcquire()
 }
 
 // WaitQuiescent parks the caller until nothing else can run: every other task is
 // done, parked on a condition that does not hold, or blocked natively, and no
 // time-based wake-up is pending (or the idle horizon passed).  It is the
 // "faults have stopped and the system has settled" point of a scenario.
+//
+//go:norace
 func WaitQuiescent() {
 	s := active.Load()
 	if s == nil {
@@ -470,15 +516,18 @@ func WaitQuiescent() {
 	}
 	t.idle = true
 	Point(KUser, nil, func(time.Time) (bool, time.Time) { return false, time.Time{} })
+	hAcquire()
 	t.idle = false
 }
 
 // Snapshot lists the tasks that are parked (with what they wait for) or blocked
 // natively.  Meant to be called right after WaitQuiescent.
+//
+//go:norace
 func (s *Sched) Snapshot() (parked, native []string) {
 	me := s.lookup()
-	s.mu.Lock()
-	defer s.mu.Unlock()
+	qlock(&s.mu)
+	defer qunlock(&s.mu)
 	for _, t := range s.tasks {
 		if t == me || t.daemon {
 			continue
@@ -494,9 +543,13 @@ func (s *Sched) Snapshot() (parked, native []string) {
 }
 
 // Go starts fn as a new task (plain goroutine outside a run).
+//
+//go:norace
 func Go(fn func()) { GoNamed("", fn) }
 
 // GoNamed starts fn as a new task with a role label.
+//
+//go:norace
 func GoNamed(name string, fn func()) {
 	s := active.Load()
 	if s == nil {
@@ -517,24 +570,32 @@ func GoNamed(name string, fn func()) {
 	Point(KStart, nil, nil)
 }
 
+//go:norace
 func (s *Sched) spawn(t *Task, fn func()) {
 	t.kind = KStart
 	t.state.Store(int32(stParked))
 	go func() {
 		t.goid = goid()
-		s.mu.Lock()
-		s.byGoid[t.goid] = t
-		s.mu.Unlock()
+		qlock(&s.mu)
+		s.byGoid.put(t.goid, t)
+		qunlock(&s.mu)
 		defer s.taskExit(t)
 		<-t.wake
 		if s.abort.Load() {
 			t.exiting = true
 			return
 		}
+		if t.Name != "" {
+			// a named task is a harness task: what it did is visible to a harness task that waits for its
+			// end (WaitCond, WaitQuiescent), as with a WaitGroup in a real program.  Tasks started by the
+			// system under test (instrumented go statements, unnamed) publish nothing.
+			defer hRelease()
+		}
 		fn()
 	}()
 }
 
+//go:norace
 func (s *Sched) taskExit(t *Task) {
 	if p := recover(); p != nil {
 		t.Panic = p
@@ -545,22 +606,26 @@ func (s *Sched) taskExit(t *Task) {
 		}
 	}
 	t.state.Store(int32(stDone))
-	s.mu.Lock()
-	delete(s.byGoid, t.goid)
-	s.mu.Unlock()
+	qlock(&s.mu)
+	s.byGoid.del(t.goid)
+	qunlock(&s.mu)
 }
 
 // After schedules fn to be run by the scheduler goroutine once d of fake time
 // has passed.  fn must not hit sim points (it runs while all tasks are stopped).
+//
+//go:norace
 func (s *Sched) After(d time.Duration, fn func()) {
-	s.mu.Lock()
+	qlock(&s.mu)
 	s.events = append(s.events, timedEvent{at: time.Now().Add(d), seq: s.evseq, fn: fn})
 	s.evseq++
-	s.mu.Unlock()
+	qunlock(&s.mu)
 }
 
 // HintMaxSleep bounds how far the scheduler lets the clock jump at once; used when the
 // system under test owns timers the scheduler cannot see (tickers, context deadlines).
+//
+//go:norace
 func (s *Sched) HintMaxSleep(d time.Duration) {
 	if s.hintMax == 0 || d < s.hintMax {
 		s.hintMax = d
@@ -583,6 +648,8 @@ type Result struct {
 // Run executes main as the first task inside the current synctest bubble and
 // schedules until main and all non-daemon tasks are done or nothing can run.
 // It must be called from the bubble's root goroutine.
+//
+//go:norace
 func Run(cfg Config, main func()) *Result {
 	if cfg.MaxSteps == 0 {
 		cfg.MaxSteps = 200000
@@ -593,7 +660,7 @@ func Run(cfg Config, main func()) *Result {
 	if cfg.MaxTime == 0 {
 		cfg.MaxTime = 6 * time.Hour
 	}
-	s := &Sched{cfg: cfg, byGoid: map[uint64]*Task{}, swSig: map[uint64]struct{}{}}
+	s := &Sched{cfg: cfg, swSig: map[uint64]struct{}{}}
 	s.rng = NewRand(Mix(cfg.Seed, 1))
 	s.Aux = NewRand(Mix(cfg.Seed, 2))
 	s.start = time.Now()
@@ -622,9 +689,9 @@ func Run(cfg Config, main func()) *Result {
 	s.abort.Store(true)
 	for round := 0; round < 50; round++ {
 		woke := false
-		s.mu.Lock()
+		qlock(&s.mu)
 		ts := append([]*Task(nil), s.tasks...)
-		s.mu.Unlock()
+		qunlock(&s.mu)
 		for _, t := range ts {
 			if taskState(t.state.Load()) == stParked {
 				t.state.Store(int32(stRunning))
@@ -642,19 +709,19 @@ func Run(cfg Config, main func()) *Result {
 	}
 	raceEnable()
 	clean := true
-	s.mu.Lock()
+	qlock(&s.mu)
 	for _, t := range s.tasks {
 		if taskState(t.state.Load()) != stDone {
 			clean = false
 		}
 	}
-	s.mu.Unlock()
+	qunlock(&s.mu)
 	res.Clean = clean
 	active.Store(nil)
 	resetPools()
-	s.fmu.Lock()
+	qlock(&s.fmu)
 	res.Failures = append(res.Failures, s.Failures...)
-	s.fmu.Unlock()
+	qunlock(&s.fmu)
 	s.Stats.SimTime = time.Since(s.start)
 	res.Stats = s.Stats
 	res.Sig = s.sig
@@ -664,12 +731,15 @@ func Run(cfg Config, main func()) *Result {
 }
 
 // Sched returns the scheduler of the active run (for harness use).
+//
+//go:norace
 func (s *Sched) Cfg() Config { return s.cfg }
 
+//go:norace
 func (s *Sched) runDueEvents(now time.Time) bool {
 	ran := false
 	for {
-		s.mu.Lock()
+		qlock(&s.mu)
 		best := -1
 		for i, e := range s.events {
 			if !e.at.After(now) {
@@ -679,17 +749,18 @@ func (s *Sched) runDueEvents(now time.Time) bool {
 			}
 		}
 		if best < 0 {
-			s.mu.Unlock()
+			qunlock(&s.mu)
 			return ran
 		}
 		e := s.events[best]
 		s.events = append(s.events[:best], s.events[best+1:]...)
-		s.mu.Unlock()
+		qunlock(&s.mu)
 		e.fn()
 		ran = true
 	}
 }
 
+//go:norace
 func (s *Sched) releaseIdle(ts []*Task) bool {
 	var idle []*Task
 	for _, t := range ts {
@@ -712,6 +783,7 @@ func (s *Sched) releaseIdle(ts []*Task) bool {
 	return true
 }
 
+//go:norace
 func (s *Sched) loop(res *Result) {
 	idleSince := time.Time{}
 	quantum := time.Millisecond
@@ -734,10 +806,10 @@ func (s *Sched) loop(res *Result) {
 			synctest.Wait()
 		}
 		// collect
-		s.mu.Lock()
+		qlock(&s.mu)
 		ts := append([]*Task(nil), s.tasks...)
 		evs := append([]timedEvent(nil), s.events...)
-		s.mu.Unlock()
+		qunlock(&s.mu)
 		var enabled []*Task
 		var wakeAt time.Time
 		live := 0
@@ -866,6 +938,7 @@ func (s *Sched) loop(res *Result) {
 	}
 }
 
+//go:norace
 func hashStr(s string) uint64 {
 	var h uint64 = 1469598103934665603
 	for i := 0; i < len(s); i++ {
@@ -874,6 +947,7 @@ func hashStr(s string) uint64 {
 	return h
 }
 
+//go:norace
 func (s *Sched) finishStuck(res *Result, ts []*Task) {
 	for _, t := range ts {
 		switch taskState(t.state.Load()) {
@@ -893,6 +967,7 @@ func (s *Sched) finishStuck(res *Result, ts []*Task) {
 // Labeler lets sim objects describe themselves in stuck-task reports.
 type Labeler interface{ SimLabel() string }
 
+//go:norace
 func objLabel(o any) string {
 	if l, ok := o.(Labeler); ok {
 		return ":" + l.SimLabel()
@@ -902,12 +977,15 @@ func objLabel(o any) string {
 
 // SetDaemon marks the calling task as one that may legitimately never finish
 // (accept loops, tickers); it is not reported as stuck.
+//
+//go:norace
 func SetDaemon() {
 	if t := Current(); t != nil {
 		t.daemon = true
 	}
 }
 
+//go:norace
 func (s *Sched) pick(enabled []*Task) int {
 	n := len(enabled)
 	// forced prefix
@@ -982,6 +1060,8 @@ func (s *Sched) pick(enabled []*Task) int {
 }
 
 // callSite names the first frame outside simrt (trace mode only).
+//
+//go:norace
 func callSite() string {
 	var pcs [12]uintptr
 	n := runtime.Callers(3, pcs[:])
